@@ -68,15 +68,44 @@ coap_session_reference_lkd(coap_session_t *session) {
   return session;
 }
 
+#ifndef WRAPPER
+#define WRAPPER 0
+#endif
+#ifdef B0_WRAPPERS
+/* further public wrappers whose _lkd bodies are replaced the same way; they differ in where the wrapper takes its context from */
+#define B0_BODY() do { b0_body_runs++; b0_held_in_body = (g_owner == SELF); } while (0)
+int coap_delete_resource_lkd(coap_context_t *context, coap_resource_t *resource) { (void)context; (void)resource; B0_BODY(); return 1; }
+int coap_resource_notify_observers_lkd(coap_resource_t *r, const coap_string_t *query) { (void)r; (void)query; B0_BODY(); return 1; }
+void coap_session_release_lkd(coap_session_t *session) { (void)session; B0_BODY(); }
+coap_mid_t coap_send_lkd(coap_session_t *session, coap_pdu_t *pdu) { (void)session; (void)pdu; B0_BODY(); return 1; }
+#endif
+
 VERIF_HARNESS(c13_b0_wrapper_locks) {
   static coap_context_t ctx;
   static coap_session_t sess;
+  static coap_resource_t res;
+  static coap_pdu_t pdu;
   sess.context = &ctx;
+  res.context = &ctx;
   coap_started = 1;
   g_owner = 0;
   int supported = coap_threadsafe_is_supported();
+#if WRAPPER == 0
   coap_session_t *r = coap_session_reference(&sess);
-  VERIF_ASSERT(r == &sess && b0_body_runs == 1, "B0 public wrapper runs its locked body");
+  VERIF_ASSERT(r == &sess, "B0 coap_session_reference returns the session");
+#elif WRAPPER == 1
+  /* "Input context is ignored, but param left there to keep API consistent": NULL is a legal first argument */
+  (void)coap_delete_resource(NULL, &res);
+#elif WRAPPER == 2
+  (void)coap_delete_resource(&ctx, &res);
+#elif WRAPPER == 3
+  (void)coap_resource_notify_observers(&res, NULL);
+#elif WRAPPER == 4
+  coap_session_release(&sess);
+#elif WRAPPER == 5
+  (void)coap_send(&sess, &pdu);
+#endif
+  VERIF_ASSERT(b0_body_runs == 1, "B0 public wrapper runs its locked body");
   if (supported) {
     VERIF_ASSERT(b0_held_in_body, "B0 coap_threadsafe_is_supported() reports support, so the public wrapper holds the global lock while the library body runs");
     VERIF_ASSERT(g_owner == 0, "B0 the wrapper releases the global lock on return");
